@@ -561,6 +561,13 @@ class _History:
             # a refused run must not have replaced the stored results
             after = self._file_bytes(outdir)
             if after.get("input.json") != before_bytes.get("input.json"):
+                # ... unless it was no refusal at all: an invocation that fails in exactly the same way when nothing is
+                # reused (a crash while writing the outputs, after the results were saved) says nothing about reuse
+                fresh_result, _ = self._fresh_reference(work, step)
+                if fresh_result["status"] == result["status"]:
+                    res.probe("fails_without_reuse_too")
+                    self.trace.append([label, "fails-without-reuse-too", result["status"]])
+                    return None
                 res.violate("C11-b", f"{label}: the reuse run was refused ({result['status']}) after options {changed} changed, "
                             "but the stored results file was modified", sig="C11-b:refused-but-modified")
             return None
